@@ -51,7 +51,7 @@ func twinEnvs(tier string) []twinEnv {
 	envs := []twinEnv{
 		{Name: "plain", FlagSet: false, GoMaxProcs: 1, TZ: "UTC"},
 		{Name: "flag+queries", FlagSet: true, FlagValue: "1", GoMaxProcs: 8, TZ: "Asia/Tokyo", Extra: true},
-		{Name: "flag-empty", FlagSet: true, FlagValue: "", GoMaxProcs: 2, TZ: "America/Caracas", Restart: true},
+		{Name: "flag-empty", FlagSet: true, FlagValue: "", GoMaxProcs: 2, TZ: "America/New_York", Restart: true},
 		{Name: "plain+queries", FlagSet: false, GoMaxProcs: 4, TZ: "UTC", Extra: true, Restart: true},
 	}
 	if tier == "thorough" {
@@ -252,11 +252,21 @@ func TestCorr(t *testing.T) {
 			op := script[d]
 			replay := map[string]any{"envs": []twinEnv{envs[0], envs[k]}, "diverges_at": d,
 				"outputs": []stepOut{outs[0][d], outs[k][d]}}
-			// shrink: the operation alone on a fresh world
-			alone, _ := twin(tag+"_shrunk", []Op{op})
-			if firstDivergence(alone[0], alone[k]) == 0 {
-				replay["history"] = []Op{op}
-				replay["outputs"] = []stepOut{alone[0][0], alone[k][0]}
+			// shrink: the operation alone on a fresh world (a light-node operation: with the earlier operations on the same client)
+			min := []Op{op}
+			if op.Kind == "lightnode" {
+				min = nil
+				for _, p := range script[:d+1] {
+					if p.Kind == "lightnode" && p.Light.Client == op.Light.Client {
+						min = append(min, p)
+					}
+				}
+			}
+			alone, _ := twin(tag+"_shrunk", min)
+			if l := len(min) - 1; firstDivergence(alone[0], alone[k]) == l {
+				replay["history"] = min
+				replay["diverges_at"] = l
+				replay["outputs"] = []stepOut{alone[0][l], alone[k][l]}
 			} else {
 				replay["history"] = script[:d+1]
 			}
